@@ -476,6 +476,30 @@ type vfEntry struct {
 	id      int
 	shift   int32
 	evicted map[int]bool // per owning sequence: slid out of that sequence's window at some StartForward
+	// evidence recorded when the entry was evicted for a sequence: the entry's own shift and the total
+	// middle-removal shift the sequence had received by then (F15 attribution)
+	shiftAtEvict    map[int]int32
+	seqShiftAtEvict map[int]int32
+}
+
+func (e *vfEntry) markEvicted(q int, seqShift int32) {
+	e.evicted[q] = true
+	if e.shiftAtEvict == nil {
+		e.shiftAtEvict, e.seqShiftAtEvict = map[int]int32{}, map[int]int32{}
+	}
+	e.shiftAtEvict[q], e.seqShiftAtEvict[q] = e.shift, seqShift
+}
+
+// inherit copies the eviction record of sequence src to sequence dst (CopyPrefix / entry split)
+func (e *vfEntry) inherit(from *vfEntry, src, dst int) {
+	if !from.evicted[src] {
+		return
+	}
+	e.evicted[dst] = true
+	if e.shiftAtEvict == nil {
+		e.shiftAtEvict, e.seqShiftAtEvict = map[int]int32{}, map[int]int32{}
+	}
+	e.shiftAtEvict[dst], e.seqShiftAtEvict[dst] = from.shiftAtEvict[src], from.seqShiftAtEvict[src]
 }
 
 func (e *vfEntry) has(s int) bool {
@@ -496,6 +520,8 @@ func (e *vfEntry) drop(s int) {
 	}
 	e.seqs = out
 	delete(e.evicted, s)
+	delete(e.shiftAtEvict, s)
+	delete(e.seqShiftAtEvict, s)
 }
 
 type vfSeqFlags struct {
@@ -510,6 +536,8 @@ type vfShadow struct {
 	entries []*vfEntry
 	flags   map[int]*vfSeqFlags
 	unsound bool // history left the documented contract (wild ranges/positions): L2 silent from here
+	// per sequence: total amount by which accepted middle removals have shifted its tail down so far
+	seqShift map[int]int32
 }
 
 func (s *vfShadow) fl(seq int) *vfSeqFlags {
@@ -547,8 +575,8 @@ func (s *vfShadow) slide(toks []vfTok) (marked int) {
 			if p, ok := low[q]; ok && int64(e.pos) < int64(p)-int64(s.window) {
 				if !e.evicted[q] {
 					marked++
+					e.markEvicted(q, s.seqShift[q])
 				}
-				e.evicted[q] = true
 			}
 		}
 	}
@@ -566,11 +594,13 @@ func (s *vfShadow) copyPrefix(src, dst int, n int32) {
 		e.drop(dst)
 		if e.has(src) && e.pos < n {
 			e.seqs = append(e.seqs, dst)
-			if e.evicted[src] {
-				e.evicted[dst] = true
-			}
+			e.inherit(e, src, dst)
 		}
 	}
+	if s.seqShift == nil {
+		s.seqShift = map[int]int32{}
+	}
+	s.seqShift[dst] = s.seqShift[src]
 	s.compact()
 	fs := *s.fl(src)
 	*s.fl(dst) = vfSeqFlags{poisoned: fs.poisoned, mid: fs.mid, misuse: fs.misuse, pending: s.window != math.MaxInt32}
@@ -587,9 +617,16 @@ func (s *vfShadow) remove(seq int, b, e int32) string {
 			}
 		}
 		s.compact()
+		if b == 0 {
+			delete(s.seqShift, seq)
+		}
 		return ""
 	}
 	off := b - e
+	if s.seqShift == nil {
+		s.seqShift = map[int]int32{}
+	}
+	s.seqShift[seq] += e - b
 	var add []*vfEntry
 	for _, x := range s.entries {
 		if !x.has(seq) {
@@ -611,9 +648,7 @@ func (s *vfShadow) remove(seq int, b, e int32) string {
 					bad = fmt.Sprintf("entry id=%d pos=%d shared by %v was shifted for seq %d", x.id, x.pos, x.seqs, seq)
 				}
 				ne := &vfEntry{seqs: []int{seq}, pos: x.pos + off, id: x.id, shift: x.shift + off, evicted: map[int]bool{}}
-				if x.evicted[seq] {
-					ne.evicted[seq] = true
-				}
+				ne.inherit(x, seq, seq)
 				x.drop(seq)
 				add = append(add, ne)
 			} else {
@@ -1112,7 +1147,7 @@ func (r *vfRun) fwdOK(opi int, op vfOp, ctx ml.Context) string {
 func (r *vfRun) observe(opi int, toks []vfTok, ctx ml.Context, except map[int]bool, judge bool) string {
 	c := r.cache
 	n := len(toks)
-	sh := &vfShadow{window: r.shadow.window, entries: r.shadow.entries, flags: r.shadow.flags, unsound: r.shadow.unsound || !judge}
+	sh := &vfShadow{window: r.shadow.window, entries: r.shadow.entries, flags: r.shadow.flags, unsound: r.shadow.unsound || !judge, seqShift: r.shadow.seqShift}
 	r.sel()
 	r.api.SetLayer(r.layers[0])
 	kv, vv, mk := r.api.Get(ctx)
@@ -1146,6 +1181,40 @@ func (r *vfRun) observe(opi int, toks []vfTok, ctx ml.Context, except map[int]bo
 			r.l2("mask-differs-across-layers", fmt.Sprintf("op %d", opi))
 		}
 	}
+	// the K and V views of EVERY layer must show what layer[0] shows at the exposed history indices
+	if !sh.unsound {
+		for _, l := range r.layers[1:] {
+			r.sel()
+			r.api.SetLayer(l)
+			kl, vl, _ := r.api.Get(ctx)
+			kfl, vfl := kl.(*vfTensor).Floats(), vl.(*vfTensor).Floats()
+			if len(kfl) != len(kf) || len(vfl) != len(vf) {
+				r.l2("layers-disagree-through-get", fmt.Sprintf("op %d layer %d: view sizes differ from layer %d", opi, l, r.layers[0]))
+				continue
+			}
+			bad := -1
+			for i := 0; i < n && bad < 0; i++ {
+				for j := 0; j < length; j++ {
+					if mf[i*length+j] != 0 {
+						continue
+					}
+					kb := j * vfKHead * vfHeads
+					vb := j * vfVHead * vfHeads
+					if r.cf.permV {
+						vb = j
+					}
+					if kfl[kb] != kf[kb] || kfl[kb+1] != kf[kb+1] || vfl[vb] != vf[vb] {
+						bad = j
+						break
+					}
+				}
+			}
+			if bad >= 0 {
+				r.l2("layers-disagree-through-get", fmt.Sprintf("op %d: layer %d shows other K/V data than layer %d at exposed history index %d", opi, l, r.layers[0], bad))
+			}
+		}
+	}
+	r.sel()
 	r.api.SetLayer(r.layers[0])
 	var sb strings.Builder
 	diagDone := false
@@ -1179,11 +1248,18 @@ func (r *vfRun) observe(opi int, toks []vfTok, ctx ml.Context, except map[int]bo
 		}
 		sb.WriteString(":" + vfKeysString(ks))
 
+		if r.out != nil {
+			r.out.Count("tokens_observed")
+		}
 		if sh.unsound || sh.fl(t.seq).poisoned {
 			continue
 		}
+		if r.out != nil {
+			r.out.Count("tokens_judged")
+		}
 		// L2: the exposed identities are exactly the stored history of (seq, <= pos, within window)
 		var want, wantEvicted []vfKey
+		explained := true // every missing entry is back inside the window only because of middle-removal shifts since its eviction
 		for _, e := range sh.entries {
 			// an excepted batch index is not restricted to positions <= its own
 			if !e.has(t.seq) || (e.pos > t.pos && !except[i]) {
@@ -1194,6 +1270,13 @@ func (r *vfRun) observe(opi int, toks []vfTok, ctx ml.Context, except map[int]bo
 			}
 			if e.evicted[t.seq] {
 				wantEvicted = append(wantEvicted, vfKey{e.id, int(e.shift)})
+				// without the shifts applied since the eviction (to the sequence's tail: delta, to the entry itself: de)
+				// the entry would still be outside the window of this query
+				delta := int64(sh.seqShift[t.seq] - e.seqShiftAtEvict[t.seq])
+				de := int64(e.shiftAtEvict[t.seq] - e.shift)
+				if !(int64(e.pos)+de < int64(t.pos)+delta-int64(sh.window)) {
+					explained = false
+				}
 			} else {
 				want = append(want, vfKey{e.id, int(e.shift)})
 			}
@@ -1219,8 +1302,9 @@ func (r *vfRun) observe(opi int, toks []vfTok, ctx ml.Context, except map[int]bo
 				if r.out != nil {
 					r.out.Count("l2_skip_window_misuse")
 				}
-			case f.mid:
-				r.l2("window-entry-missing-after-middle-remove", detail)
+			case explained:
+				// F15's input class exactly: positions were shifted down by a middle Remove after the entry had been evicted
+				r.l2("window-entry-missing-after-middle-remove", detail+"; cause=shift-after-evict")
 			default:
 				r.l2("window-entry-missing-after-approved-resume", detail)
 			}
@@ -2295,8 +2379,10 @@ func TestVerifC06Probe(t *testing.T) {
 		return r, false
 	}
 	bits := 0
+	witness := map[int]string{}
 	// F14: after the defrag the cell labelled position 0 must hold the row stored for it (id 3)
-	r, _ := run("kv-x 0 inf 1 5 5 1 1 1 0 0 8192 4 F 5 0 0 1 0 1 2 0 2 3 0 3 4 0 4 5 R 0 0 2 R 0 2 2147483647 F 3 0 2 6 0 3 7 0 4 8")
+	witness[1] = "kv-x 0 inf 1 5 5 1 1 1 0 0 8192 4 F 5 0 0 1 0 1 2 0 2 3 0 3 4 0 4 5 R 0 0 2 R 0 2 2147483647 F 3 0 2 6 0 3 7 0 4 8"
+	r, _ := run(witness[1])
 	for i, c := range r.cache.cells {
 		if len(c.sequences) > 0 && c.pos == 0 {
 			if id, _, _ := r.rowK(r.layers[0], i); id == 3 {
@@ -2305,12 +2391,14 @@ func TestVerifC06Probe(t *testing.T) {
 		}
 	}
 	// F15b: the fork of a slid sequence must not be approved
+	witness[2] = "kv-x 0 2 2 16 4 1 1 1 0 0 8192 13 F 1 0 0 1 F 1 0 1 2 F 1 0 2 3 F 1 0 3 4 F 1 0 4 5 F 1 0 5 6 F 1 0 6 7 F 1 0 7 8 F 1 0 8 9 F 1 0 9 10 C 0 1 8 Q 1 8 R 1 8 2147483647 F 1 1 8 11"
 	r, _ = run("kv-x 0 2 2 16 4 1 1 1 0 0 8192 11 F 1 0 0 1 F 1 0 1 2 F 1 0 2 3 F 1 0 3 4 F 1 0 4 5 F 1 0 5 6 F 1 0 6 7 F 1 0 7 8 F 1 0 8 9 F 1 0 9 10 C 0 1 8")
 	if !r.cache.CanResume(1, 8) {
 		bits |= 2
 	}
 	// F23: a first batch larger than the cache must be an error, not a panic
-	if _, panicked := run("kv-x 0 inf 1 1 3 1 1 1 1 0 10 1 F 2 0 0 1 0 1 2"); !panicked {
+	witness[4] = "kv-x 0 inf 1 1 3 1 1 1 1 0 10 1 F 2 0 0 1 0 1 2"
+	if _, panicked := run(witness[4]); !panicked {
 		bits |= 4
 	}
 	// SWA capacity: window 2, 2 sequences, context 16, batch 4: 2*2+4 = 8 cells pinned, 2*(2+4) = 12 repaired
@@ -2326,11 +2414,20 @@ func TestVerifC06Probe(t *testing.T) {
 		}
 	}
 	// F28: a refused Remove (shared cells would have to shift) must leave the cells as they were
+	witness[16] = "kv-x 0 inf 2 8 8 1 1 1 0 0 8192 4 F 4 0 0 1 0 1 2 0 2 3 0 3 4 C 0 1 4 R 0 1 2 F 1 0 4 5"
+	witness[8] = "kv-x 0 2 2 16 4 1 1 1 0 0 8192 0"
 	r, _ = run("kv-x 0 inf 2 8 8 1 1 1 0 0 8192 3 F 4 0 0 1 0 1 2 0 2 3 0 3 4 C 0 1 4 R 0 1 2")
 	for _, c := range r.cache.cells {
 		if c.pos == 1 && slices.Contains(c.sequences, 0) {
 			bits |= 16
 		}
+	}
+	var wl []string
+	for _, b := range []int{1, 2, 4, 8, 16} {
+		wl = append(wl, fmt.Sprintf("%d\t%s", b, witness[b]))
+	}
+	if err := os.WriteFile(zzverif.OutDir()+"/witness.txt", []byte(strings.Join(wl, "\n")+"\n"), 0o644); err != nil {
+		t.Fatal(err)
 	}
 	if err := os.WriteFile(zzverif.OutDir()+"/variant.txt", []byte(strconv.Itoa(bits)+"\n"), 0o644); err != nil {
 		t.Fatal(err)
